@@ -114,6 +114,15 @@ fn main() {
             fs::write(&args[3], serde_json::to_vec_pretty(&m).unwrap()).unwrap();
             exit(0);
         }
+        "run-one" => {
+            driver::silence_stdio();
+            driver::init_process();
+            let inp: driver::RunOneInput = serde_json::from_slice(&fs::read(&args[2]).unwrap()).unwrap();
+            let out = worlds::execute(&inp.scenario, &worlds::ExecOpts { sched: inp.sched, trace: inp.trace });
+            fs::write(&args[3], serde_json::to_vec(&driver::to_lite(&out)).unwrap()).unwrap();
+            let _ = fs::remove_dir_all(simkit::fsutil::scratch_base());
+            exit(0);
+        }
         "gen" => {
             // gen <profile> <tier> <seed>: print a scenario (debugging aid)
             let tier = driver::parse_tier(&args[3]);
